@@ -6,7 +6,7 @@ use crate::model::{cal, tl};
 use crate::obs::*;
 use crate::props::c11::{case_ok, format_value, gen_value, Case};
 use arbitrary::Unstructured;
-use astrolabe::{Date, DateTime, DateUtilities, Offset, OffsetUtilities, Time, TimeUtilities};
+use astrolabe::{Date, DateTime, Offset, OffsetUtilities, Time};
 
 /// variable-width text: must be followed by the end or a non-digit
 fn is_var(sym: char, width: usize) -> bool {
@@ -62,7 +62,6 @@ fn gen_pattern(u: &mut Unstructured, kind: Kind, v: Inst, off: i32) -> arbitrary
     let f = fmt::local_fields(kind, v.day, v.ns, off);
     let mut fields: Vec<Tok> = Vec::new();
     let fld = |sym: char, width: usize| Tok::Field { sym, width };
-    let mut full_date = false;
     let mut year_w2 = false;
     if kind != Kind::Time {
         // 0 none, 1 y, 2 y+M, 3 y+M+d, 4 y+D, 5 M, 6 d, 7 M+d
@@ -94,7 +93,7 @@ fn gen_pattern(u: &mut Unstructured, kind: Kind, v: Inst, off: i32) -> arbitrary
         if shape == 4 {
             fields.push(fld('D', *u.choose(&[1usize, 2, 3, 4, 6])?));
         }
-        full_date = matches!(shape, 3 | 4) && !year_w2;
+        let full_date = matches!(shape, 3 | 4) && !year_w2;
         if full_date {
             // derived fields
             if u.coin(1, 4)? {
